@@ -23,8 +23,16 @@ def parse_index(f):
             if b < 0x80: return v
     n = vli(); return [(vli(), vli()) for _ in range(n)]
 
+UPD = ['Ulzma2:dict=4KiB,lc=%d,lp=%d,pb=%d', 'Udelta:dist=%d+lzma2:dict=8KiB', 'Ux86+lzma2:dict=4KiB', 'Ulzma2:dict=64KiB,mode=fast']
+# chains that pass the generic validation but are refused when the filters are initialised (misaligned start offset): the
+# update must fail and leave the encoder usable with the chain it had
+BAD_UPD = ['Uarm:start=2+lzma2:dict=4KiB', 'Ux86+arm64:start=6+lzma2:dict=4KiB', 'Upowerpc:start=1+lzma2:dict=8KiB', 'Udelta:dist=2+sparc:start=3+lzma2:dict=4KiB']
+
 def gen_script(rng, n, kind):
     steps = []; left = n
+    if kind in (0, 4) and rng.random() < 0.25:      # updates as the very first calls, refused and accepted ones back to back
+        for _ in range(rng.randrange(1, 4)):
+            steps.append(rng.choice(BAD_UPD + ['Ux86+lzma2:dict=4KiB', 'Ulzma2:dict=64KiB,mode=fast']))
     for _ in range(rng.randrange(1, 9)):
         a = rng.choice({0: 'RRRSSFFB', 4: 'RRRSSFFB', 1: 'RRRFFB', 3: 'RRRSS'}[kind])
         k = rng.choice([0, 0, 1, 5, 100, rng.randrange(0, max(1, left + 1))]) if left else 0
@@ -33,6 +41,8 @@ def gen_script(rng, n, kind):
         if rng.random() < 0.25:
             lc = rng.randrange(5); lp = rng.randrange(5 - lc); pb = rng.randrange(5)
             steps.append(rng.choice(['Ulzma2:dict=4KiB,lc=%d,lp=%d,pb=%d' % (lc, lp, pb), 'Udelta:dist=%d+lzma2:dict=8KiB' % rng.randrange(1, 257), 'Ux86+lzma2:dict=4KiB', 'Ulzma2:dict=64KiB,mode=fast']))
+            # (the threaded encoder validates a new chain only "mostly" and reports the rest from lzma_code later: not used there)
+            if kind in (0, 4) and rng.random() < 0.4: steps.append(rng.choice(BAD_UPD))
     return ';'.join(steps)
 
 def run(ctx):
